@@ -77,7 +77,13 @@ TNext ==
                  /\ pend' = [k |-> "reenter", A |-> [ip |-> 0, op |-> "", n |-> 0, a |-> <<>>, h |-> r.h]]
        [] r.e = "ReenterEnd" ->
             IF ctx = <<>> THEN Reject(r, "end of a re-entry that never began")
-            ELSE IF ~r.ok THEN Stop   \* the callee failed: what the host function makes of it is its business
+            ELSE IF ~r.ok THEN
+                 \* the callee failed.  The host function either passes the failure on (RunEnd / ReenterEnd follow) or handles
+                 \* it and carries on: then the caller finds its frames and its stack as before the call (less the host
+                 \* function's parameters, plus its result), exactly as after a successful call
+                 LET top == ctx[Len(ctx)] IN
+                 /\ l' = l + 1 /\ pend' = top.pend /\ cur' = top.F /\ last' = top.last
+                 /\ ctx' = SubSeq(ctx, 1, Len(ctx) - 1) /\ UNCHANGED <<mode, prog>>
             ELSE LET top == ctx[Len(ctx)] IN
                  \* the callee returned through the trap frame to the final Exit: only the trap frame is left
                  IF last # "Exit" \/ r.c # Len(top.F) + 1 THEN Reject(r, "a callee ends at the final Exit with only the trap frame left")
